@@ -10,7 +10,7 @@ LEVEL = "exploration"
 TECHNIQUE = "exhaustive small (b,t,n) grid + Hypothesis-generated configurations against a step-counting model and numpy's SeedSequence.spawn as reference"
 RULE = (
     "exhaustive b<=6,t<=4,n<=5 with a counting MCMC model; generated b in 0..12 (also 100, 1000), t in 1..6 (also 10, 25), n in 1..8 (also 20, 100, 257, 600, 1025), seeds in {0, small, up to 2^63}, "
-    "n_chains 1..6 with two chain indices; a counting VI model; the real SparseDrugCombo sampler in 1 of 8 cases. "
+    "n_chains 1..6 with two chain indices; a cross-process sweep (fixed triples sampled in three different orders in three interpreters must get the same streams); a counting VI model; the real SparseDrugCombo sampler in 1 of 8 cases. "
     "Non-trivial = b>0 and t>1 and n_chains>1 (exhaustive grid: b>0 and t>1). distinct = distinct case JSON."
 )
 ASSUMPTIONS = [
@@ -25,7 +25,61 @@ def budgets(tier):
     return {"examples": 20000, "max_s": 600, "shrink_s": 60, "shards": 16}
 
 
+SWEEP_TRIPLES = [(s_, n_, c_) for s_ in (0, 7, 2**40 + 3) for n_ in (1, 2, 3, 5) for c_ in range(n_)]
+
+
+def sweep_streams(order):
+    """worker entry: first outputs of the generator handed to the model, for the fixed triples visited in the given order"""
+    from batchie import sampling
+    from batchie.core import ThetaHolder
+
+    Counting, _, _ = _models()
+    out = {}
+    for i in order:
+        seed, n_chains, chain = SWEEP_TRIPLES[i]
+        m = Counting()
+        sampling.sample(model=m, results=ThetaHolder(n_thetas=1), seed=seed, n_chains=n_chains, chain_index=chain, n_burnin=0, thin=1)
+        out[str(i)] = [int(x) for x in _prefix(m.rng, 6)]
+    return out
+
+
+def _order_sweep(case):
+    import json
+    import os
+    import subprocess
+    import sys
+
+    from vf.engine import ROOT
+    from vf.tree import REPO, HarnessError
+
+    n = len(SWEEP_TRIPLES)
+    orders = {"reversed": list(range(n - 1, -1, -1)), "by_chain_count_desc": sorted(range(n), key=lambda i: (-SWEEP_TRIPLES[i][1], SWEEP_TRIPLES[i][0], SWEEP_TRIPLES[i][2]))}
+    procs = []
+    for name, order in orders.items():
+        code = "import sys, json; sys.path.insert(0, %r); from vf import tree; tree.activate(); from checks import c17_sampling as m; print('SWEEP' + json.dumps(m.sweep_streams(%r)))" % (ROOT, order)
+        env = dict(os.environ, BATCHIE_REPO=REPO, PYTHONDONTWRITEBYTECODE="1")
+        procs.append((name, subprocess.Popen([sys.executable, "-c", code], env=env, stdout=subprocess.PIPE, stderr=subprocess.PIPE, text=True)))
+    here = sweep_streams(list(range(n)))  # this interpreter: ascending order (and whatever other cases sampled before)
+    compared = 0
+    for name, p in procs:
+        so, se = p.communicate(timeout=600)
+        line = [l for l in so.splitlines() if l.startswith("SWEEP")]
+        if p.returncode != 0 or not line:
+            raise HarnessError("order-sweep worker failed (rc=%r): %s" % (p.returncode, se[-400:]))
+        other = json.loads(line[0][5:])
+        for i in range(n):
+            require(other[str(i)] == here[str(i)], "rng.depends_on_call_history", lambda: "the generator for (seed, n_chains, chain) = %r differs between a process that sampled the triples in ascending order and one that sampled them in the order %s" % (SWEEP_TRIPLES[i], name))
+            compared += 1
+    # distinct chains of one (seed, n_chains) have different streams
+    for s_, n_ in {(t[0], t[1]) for t in SWEEP_TRIPLES}:
+        idx = [i for i, t in enumerate(SWEEP_TRIPLES) if t[0] == s_ and t[1] == n_]
+        streams = [tuple(here[str(i)]) for i in idx]
+        require(len(set(streams)) == len(streams), "rng.chains_disjoint", lambda: "two chains of (seed=%r, n_chains=%d) got the same stream" % (s_, n_))
+    return {"nontrivial": True, "labels": ["order-sweep"], "counts": {"cross_process_stream_comparisons": compared}, "key": ["order-sweep"]}
+
+
 def exhaustive(tier):
+    yield {"kind": "order-sweep"}
     for b in range(0, 7):
         for t in range(1, 5):
             for n in range(1, 6):
@@ -157,6 +211,8 @@ def check_case(case):
     from batchie import sampling
     from batchie.core import ThetaHolder
 
+    if case["kind"] == "order-sweep":
+        return _order_sweep(case)
     Counting, CountingVI, StepTheta = _models()
     b, t, n = case["b"], case["t"], case["n"]
     seed, n_chains, chain = case["seed"], case["n_chains"], case["chain"]
